@@ -5,6 +5,7 @@ import json, os, subprocess, time, hashlib
 from . import core
 from .core import log
 from .props_h1 import TRUSTED
+from . import h1
 
 RACE_HOSTS = os.path.join(core.BUILD, "hosts_race")
 
@@ -31,6 +32,47 @@ def ensure_race_hosts():
     json.dump(want, open(stamp_p, "w"))
 
 
+def model_reference(outdir, dump_f, solo_f, seed):
+    """The solo result of every member of every group, as the race host reports it AFTER the cold concurrent round of
+    its group (and after every earlier group of the same host process), against the Lean runtime model run on that case
+    alone. Solo-vs-concurrent comparison inside one process cannot see state that the process keeps ACROSS parses
+    consistently (a package-level cache filled by the first call); the model is a reference without a history."""
+    out = {"compared": 0, "identical_lines": 0, "inconclusive": 0, "without_solo_line": 0, "disagree": []}
+    if not (os.path.exists(dump_f) and os.path.exists(solo_f)):
+        return out
+    hdr_f = os.path.join(outdir, "hdr.cases")
+    core.gen_cases("core", seed, 0, hdr_f)
+    header = open(hdr_f).read().splitlines()[0]
+    cases = [l for l in open(dump_f).read().splitlines() if l.startswith("case ")]
+    solo = {}
+    for l in open(solo_f).read().splitlines():
+        f = l.split(" ", 3)
+        if len(f) >= 3 and f[0] == "res":
+            solo.setdefault(f[1], l)
+    cases = [c for c in cases if c.split(" ", 2)[1] in solo]
+    model = core.run_model_lines(header, cases)
+    proj = h1.P(["val", "errs", "cnt", "mf", "stores", "choices", "trace_ctx", "trace_stores"])
+    for cl, ml in zip(cases, model):
+        il = solo[cl.split(" ", 2)[1]]
+        ik, mk = il.split(" ", 3)[2], ml.split(" ", 3)[2]
+        if h1.inconclusive(ik) or h1.inconclusive(mk) or ik in ("crash", "badvariant"):
+            out["inconclusive"] += 1
+            continue
+        out["compared"] += 1
+        if il == ml:
+            out["identical_lines"] += 1
+            continue
+        pi, pm = proj(core.parse_result(il)), proj(core.parse_result(ml))
+        if pi != pm:
+            why = "projection differs"
+            for a, b in zip(pi, pm):
+                if a != b:
+                    why = "impl %s  vs  model %s" % (repr(a)[:300], repr(b)[:300])
+                    break
+            out["disagree"].append((cl, il, ml, why))
+    return out
+
+
 def run_c18(prop, cfg, tier, seed):
     t0 = time.time()
     ensure_race_hosts()
@@ -42,12 +84,18 @@ def run_c18(prop, cfg, tier, seed):
     os.makedirs(outdir, exist_ok=True)
     cmd = [os.path.join(core.BIN, "pvconc"), "-hosts", RACE_HOSTS, "-seed", str(seed), "-groups", str(groups), "-rounds", str(rounds),
            "-j", str(max(2, core.NCPU // 2)), "-pvgen", os.path.join(core.BIN, "pvgen"), "-out", outdir]
+    dump_f, solo_f = os.path.join(outdir, "groups.txt"), os.path.join(outdir, "solo.txt")
+    for f in (dump_f, solo_f):
+        if os.path.exists(f):
+            os.remove(f)
+    cmd += ["-dump", dump_f, "-solo", solo_f]
     p = subprocess.run(cmd, stdout=subprocess.PIPE, stderr=subprocess.PIPE, timeout=7200)
     if p.returncode != 0:
         raise RuntimeError("pvconc failed: " + p.stderr.decode()[-2000:])
     res = json.loads(p.stdout.decode())
     printed = []
     nviol = 0
+    model_cmp = model_reference(outdir, dump_f, solo_f, seed)
 
     def rep(kind, obj, failing=True):
         nonlocal nviol
@@ -74,6 +122,11 @@ def run_c18(prop, cfg, tier, seed):
     for r in res.get("races") or []:
         r["why"] = "the race detector reported a data race between concurrent Parse calls"
         rep("data-race", r)
+    for cl, il, ml, why in model_cmp["disagree"][:3]:
+        rep("history-dependent-result", {"why": "a Parse call in a process that has parsed other inputs with the same generated parser returns something "
+                                                 "else than the runtime model prescribes for that call alone (" + why + ")",
+                                         "case": cl, "impl": il, "model": ml, "group_file": None})
+    nviol += max(0, len(model_cmp["disagree"]) - 3)
     for key in ("timeouts", "crashes"):
         if res.get(key):
             rep(key, {"why": "%d %s while parsing concurrently" % (res[key], key), "count": res[key]})
@@ -88,6 +141,8 @@ def run_c18(prop, cfg, tier, seed):
            "rule": "groups of k cases sharing one grammar (different inputs, options, initial stores with per-member marker keys) are parsed solo and then concurrently (k + k goroutines behind a barrier, several rounds) on -race builds of all 16 template variants; distinct = distinct case",
            "groups": res.get("groups"), "per_variant": res.get("per_variant"), "per_profile": res.get("per_profile"),
            "mismatches": len(res.get("mismatches") or []), "races": len(res.get("races") or []),
+           "solo_results_against_the_model": {k: v for k, v in model_cmp.items() if k != "disagree"},
+           "solo_vs_model_disagreements": len(model_cmp["disagree"]),
            "samples": [{"groups": res.get("groups"), "cases": res.get("cases"), "concurrent_parses": res.get("concurrent_parses")}],
            "explanation": "schedule independence is argued in Lean from the pool discipline (pooled maps are empty, a snapshot is filled from the live store only) and the ownership of every other piece of parser state by its parser value; races as defined by the Go memory model are outside any Lean model and are searched for with the race detector"}
     core.write_evidence(prop, tier, seed, cfg.get("level", "other"), cov,
